@@ -8,6 +8,8 @@ from symx.proto import (Entropy, setup_hash_axioms, outcome, okind, orders, new_
 from checks import published_constants as PC
 
 PID = "C03"
+TECHNIQUE = 'differential symbolic execution: real classes vs a reference model written from the property text, equality of message and key terms decided by z3 on every path (abstract group, real integer groups in the exponent domain, Ed25519 over abstract points); ground comparison with pinned published constants'
+LEVEL_NOTE = 'published constants as pinned in checks/published_constants.py; SHA-256/HKDF uninterpreted; GC contract'
 EXPLANATION = (
     "Differential check against a short reference model written from the property text. The real classes (fresh and "
     "restored) run over the abstract prime-order group with symbolic password, identities, entropy and an arbitrary "
